@@ -115,6 +115,10 @@ impl AsyncFileSystem for AsyncOverlayFS {
                 }
             }
         }
+        if path.is_empty() {
+            // the whiteout bookkeeping folder is not part of the overlay's own namespace
+            entries.remove(".whiteout");
+        }
         Ok(Box::new(futures::stream::iter(entries)))
     }
 
